@@ -7,9 +7,11 @@ package main
 //	from internal/compiler/emitter_statements.go
 //	    case *ast.Show:                      the three-way chain  macro fast path / render fast path / generic,
 //	                                         the format argument handed to emitCallNode on both fast paths,
-//	    canOptimizeShowMacro                 its boolean condition on (from, ctx); early exits whose condition
-//	                                         does not mention from/to/ctx and that can only `return false` are
-//	                                         dropped (they only refuse the fast path more often) and listed,
+//	    canOptimizeShowMacro                 its boolean condition on (from, ctx, em.inURL) — `em.inURL` is the only
+//	                                         other operand accepted, as a Bool atom: macroGuardU inURL from ctx,
+//	                                         macroGuard = macroGuardU false; early exits whose condition
+//	                                         does not mention from/to/ctx/em.inURL and that can only `return false`
+//	                                         are dropped (they only refuse the fast path more often) and listed,
 //	    the *ast.Render branch               its guard: `ok` alone = no guard = `true`; `ok && f(render, ctx)`
 //	                                         = the translated body of f,
 //	from internal/runtime/run.go
@@ -38,6 +40,11 @@ func init() {
 type sfpGen struct {
 	fset   *token.FileSet
 	consts map[string]int // ast.FormatX / ast.ContextX / ReturnString
+	// boolean atoms a guard may read besides from/to/ctx: printed Go expression -> Lean Bool variable.
+	// Set only while canOptimizeShowMacro is translated ({"em.inURL": "inURL"}: the emitter's URL flag, the
+	// very expression the generic branch hands to emitShow); used records which of them occurred.
+	atoms map[string]string
+	used  map[string]bool
 }
 
 func (g *sfpGen) src(n ast.Node) string {
@@ -142,6 +149,12 @@ func (g *sfpGen) num(e ast.Expr, env sfpEnv) (string, error) {
 }
 
 func (g *sfpGen) boolean(e ast.Expr, env sfpEnv) (string, error) {
+	if sel, ok := e.(*ast.SelectorExpr); ok {
+		if v, ok := g.atoms[g.src(sel)]; ok {
+			g.used[g.src(sel)] = true
+			return v, nil
+		}
+	}
 	switch x := e.(type) {
 	case *ast.ParenExpr:
 		return g.boolean(x.X, env)
@@ -205,6 +218,20 @@ func (g *sfpGen) mentions(n ast.Node, names ...string) bool {
 				if id.Name == w {
 					hit = true
 				}
+			}
+		}
+		return true
+	})
+	return hit
+}
+
+// mentionsAtom: n contains one of the boolean atoms of the guard being translated.
+func (g *sfpGen) mentionsAtom(n ast.Node) bool {
+	hit := false
+	ast.Inspect(n, func(m ast.Node) bool {
+		if sel, ok := m.(*ast.SelectorExpr); ok {
+			if _, ok := g.atoms[g.src(sel)]; ok {
+				hit = true
 			}
 		}
 		return true
@@ -559,16 +586,37 @@ func genShowFastPath(repo string) (string, error) {
 	if canOpt == nil {
 		return "", sfpErr("no emitter.canOptimizeShowMacro")
 	}
+	// the receiver must be `em *emitter`, so that `em.inURL` is the flag of the emitter that the generic
+	// branch passes to emitShow (pinned above)
+	if canOpt.Recv == nil || len(canOpt.Recv.List) != 1 || len(canOpt.Recv.List[0].Names) != 1 ||
+		canOpt.Recv.List[0].Names[0].Name != "em" || g.src(canOpt.Recv.List[0].Type) != "*emitter" {
+		return "", sfpErr("canOptimizeShowMacro: receiver is not (em *emitter)")
+	}
+	g.atoms, g.used = map[string]string{"em.inURL": "inURL"}, map[string]bool{}
 	mg, dropped, err := g.guardBody(canOpt, "")
+	readsInURL := g.used["em.inURL"]
+	g.atoms, g.used = nil, nil
 	if err != nil {
 		return "", err
+	}
+	for _, d := range dropped {
+		if strings.Contains(d, "inURL") {
+			return "", sfpErr("canOptimizeShowMacro: a dropped exit mentions inURL: %s", d)
+		}
 	}
 	out.WriteString("/-- canOptimizeShowMacro as a condition on (format of the macro's result type, context of the show).\n")
 	out.WriteString("Dropped, because they can only refuse the fast path and do not look at the formats:\n")
 	for _, d := range dropped {
 		out.WriteString("  * `" + strings.ReplaceAll(d, "-/", "- /") + "`\n")
 	}
-	out.WriteString("-/\ndef macroGuard (from_ ctx : Nat) : Bool :=\n  " + mg + "\n\n")
+	out.WriteString("`inURL` is the emitter's flag `em.inURL` (the one the generic branch hands to emitShow). -/\n")
+	if readsInURL {
+		out.WriteString("def macroGuardU (inURL : Bool) (from_ ctx : Nat) : Bool :=\n  " + mg + "\n")
+	} else {
+		out.WriteString("def macroGuardU (_inURL : Bool) (from_ ctx : Nat) : Bool :=\n  " + mg + "\n")
+	}
+	fmt.Fprintf(&out, "/-- whether canOptimizeShowMacro reads `em.inURL` at all -/\ndef macroGuardReadsInURL : Bool := %v\n", readsInURL)
+	out.WriteString("/-- the condition for a show that is not inside a URL -/\ndef macroGuard (from_ ctx : Nat) : Bool :=\n  macroGuardU false from_ ctx\n\n")
 
 	// the render branch
 	rcond := g.src(second.Cond)
